@@ -124,5 +124,5 @@ pub fn observed_solve(game: &LibGame, cfg: &SolveCfg) -> SolveOut {
 
 /// A generous bound on decision-node visits for one solve; exceeding it is a hang.
 pub fn step_budget(nodes: usize, t: u64, k: usize) -> u64 {
-    64 * (t + 1) * 2 * (nodes as u64 + 1) * (k.clamp(1, 64) as u64)
+    64u64.saturating_mul(t.saturating_add(1)).saturating_mul(2).saturating_mul(nodes as u64 + 1).saturating_mul(k.clamp(1, 64) as u64)
 }
